@@ -118,6 +118,12 @@ def run(ck):
     for i in range(n_lay):
         rng = random.Random(f"C11:lay:{ck.seed}:{i}")
         specs.append(dict(files=layered(rng), origin=f"layered#{i}"))
+    # the head of a dotted path shadowed by a nested message of an enclosing message (and by an
+    # import `as` name), the two candidates having different widths
+    for i in range(fs.scaled(ck.n(18, 300))):
+        rng = random.Random(f"C11:head:{ck.seed}:{i}")
+        files, _top, _info = fg.head_shadow(rng, variant="import" if i % 3 == 0 else "message")
+        specs.append(dict(files=files, origin=f"head-shadow#{i}", code=0))
     n_sh = fs.scaled(ck.n(45, 900))
     for i in range(n_sh):
         rng = random.Random(f"C11:sh:{ck.seed}:{i}")
